@@ -1,7 +1,9 @@
 #!/usr/bin/env python3
 """Build-time helper: evaluate one seeded change against the checks.
 usage: try_seed.py <seed dir with patch.diff + demo.py> <Cxx> [more props]
-Applies the patch to /repo, runs the demo and the property's quick check, and ALWAYS reverts /repo afterwards."""
+Applies the patch to /repo (or, with TRY_SEED_REPO=<scratch worktree of /repo at HEAD>, to that worktree, the checks then
+run with VERIF_REPO pointing at it), runs the demo and the property's quick check, and ALWAYS reverts the tree afterwards.
+NOTE: check.py rewrites evidence/<id>.json from the patched run: restore with `git checkout -- evidence` afterwards."""
 import json
 import os
 import subprocess
@@ -9,6 +11,8 @@ import sys
 import time
 
 seed, props = sys.argv[1], sys.argv[2:]
+REPO = os.environ.get("TRY_SEED_REPO", "/repo")
+ENVP = "" if REPO == "/repo" else f"VERIF_REPO={REPO} "
 patch = os.path.join(seed, "patch.diff")
 demo = os.path.join(seed, "demo.py")
 out = {"seed": seed, "props": {}}
@@ -19,25 +23,25 @@ def sh(cmd, cwd=None, timeout=3600):
     return p.returncode, (p.stdout + p.stderr)
 
 
-assert sh("git -C /repo status --porcelain")[1].strip() == "", "/repo is not clean"
-rc, o = sh(f"git -C /repo apply --check {patch}")
+assert sh(f"git -C {REPO} status --porcelain")[1].strip() == "", "tree is not clean"
+rc, o = sh(f"git -C {REPO} apply --check {patch}")
 out["applies"] = rc == 0
 if rc != 0:
     print(json.dumps(out), o)
     sys.exit(2)
-rc, o = sh(f"/venv/bin/python {demo}", cwd="/repo")
+rc, o = sh(f"/venv/bin/python {demo}", cwd=REPO)
 out["demo_clean_rc"] = rc
 try:
-    sh(f"git -C /repo apply {patch}")
-    rc, o = sh(f"/venv/bin/python {demo}", cwd="/repo")
+    sh(f"git -C {REPO} apply {patch}")
+    rc, o = sh(f"/venv/bin/python {demo}", cwd=REPO)
     out["demo_patched_rc"] = rc
     out["demo_patched_tail"] = o[-300:]
     for p in props:
         t0 = time.time()
-        rc, o = sh(f"python3 check.py {p} --tier quick", cwd="/verif")
+        rc, o = sh(f"{ENVP}python3 check.py {p} --tier quick", cwd="/verif")
         lines = [l for l in o.splitlines() if l.startswith(("VIOLATION", "  what", "property=", "CHECKER", "UNDECIDED", "demoted"))]
         out["props"][p] = {"rc": rc, "wall": round(time.time() - t0), "lines": lines[:12]}
 finally:
-    sh("git -C /repo checkout -- .")
-assert sh("git -C /repo status --porcelain")[1].strip() == ""
+    sh(f"git -C {REPO} checkout -- .")
+assert sh(f"git -C {REPO} status --porcelain")[1].strip() == ""
 print(json.dumps(out, indent=1))
